@@ -68,7 +68,7 @@ class Sim:
         if len(self.counters) >= 2: ops += ["counter-assign"] * 2
         if len(self.vecs) >= 2: ops += ["vec-assign"] * 3
         if self.pairs: ops += ["pair-inc", "pair-get"] * 2
-        if self.vecs: ops += ["alias", "set", "ref", "poke", "poker-new", "reader-new", "list-new", "eqv", "nest", "set-via-ref"] * 2
+        if self.vecs: ops += ["alias", "set", "ref", "poke", "poker-new", "reader-new", "list-new", "eqv", "nest", "set-via-ref", "fill"] * 2
         if self.lists: ops += ["list-ref", "list-set"] * 2
         if self.pokers: ops += ["poker-call"] * 2
         if self.readers: ops += ["reader-call"] * 2
@@ -129,6 +129,11 @@ class Sim:
             elif "mk-vec-d" in form:
                 self.vecs[n] = [0, 0]
             self.emit(form, "N")
+        elif op == "fill":
+            # make-vector puts THE fill object in every slot: the slots alias one another and the fill
+            a = r.choice(list(self.vecs)); n = self.fresh("v"); k = r.randrange(1, 4)
+            self.vecs[n] = [self.vecs[a]] * k
+            self.emit("(define %s (make-vector %d %s))" % (n, k, a), "N")
         elif op == "alias":
             a = r.choice(list(self.vecs)); n = self.fresh("w"); self.vecs[n] = self.vecs[a]
             self.emit("(define %s %s)" % (n, a), "N")
